@@ -273,7 +273,60 @@ def _(I, s, pat, to):
     return VecObj(out, "String")
 
 
-for _nm in ("trim", "trim_start", "trim_end", "parse", "split", "lines", "repeat"):
+def _pat_pred(I, pat):
+    """a char / &[char] / closure pattern -> predicate on a char value"""
+    if isinstance(pat, int) or is_sym(pat): return lambda c: I.binop("Eq", c, pat, "char")
+    v = unwrap_ptr(pat)
+    if type(v) is Ptr: v = I.deref(v)
+    if type(v) is SliceRef and not v.is_str:
+        cs = list(v.items()); return lambda c: _or_all([I.binop("Eq", c, x, "char") for x in cs])
+    if type(v) is Agg and v.ty == "array":
+        cs = list(v.f); return lambda c: _or_all([I.binop("Eq", c, x, "char") for x in cs])
+    if type(v) in (Closure, PyClosure, FnItem): return lambda c: I.call_closure(pat, Agg([c], "tuple"))
+    raise Unsupported(f"pattern {v!r}")
+
+
+def _or_all(xs):
+    r = False
+    for x in xs: r = _or(r, x)
+    return r
+
+
+def _trim_matches(front, back):
+    def f(I, s, pat):
+        s = as_str(I, s)
+        if type(unwrap_ptr(pat)) is SliceRef and unwrap_ptr(pat).is_str: raise Unsupported("trim_matches with a str pattern")
+        pred = _pat_pred(I, pat)
+        st, ln = s.start, s.len
+        while front and ln > 0:
+            c, n = decode_front(I, SliceRef(s.obj, st, ln, True))
+            if not I.W.branch(pred(c)): break
+            st += n; ln -= n
+        while back and ln > 0:
+            # last char: step back over continuation bytes
+            k = 1
+            while k < ln and k < 4:
+                b = s.obj.f[st + ln - k]
+                cont = I.W.branch(z3.And(z3.UGE(b, 0x80), z3.ULT(b, 0xC0))) if is_sym(b) else 0x80 <= b < 0xC0
+                if not cont: break
+                k += 1
+            c, n = decode_front(I, SliceRef(s.obj, st + ln - k, k, True))
+            if not I.W.branch(pred(c)): break
+            ln -= k
+        return SliceRef(s.obj, st, ln, True)
+    return f
+
+
+for _p in P:
+    S[_p + "trim_matches"] = _trim_matches(True, True)
+    S[_p + "trim_start_matches"] = S[_p + "trim_left_matches"] = _trim_matches(True, False)
+    S[_p + "trim_end_matches"] = S[_p + "trim_right_matches"] = _trim_matches(False, True)
+_ws = lambda I: PyClosure(lambda I2, c: _or_all([I2.binop("Eq", c, x, "char") for x in (9, 10, 11, 12, 13, 32, 0x85, 0xA0, 0x1680, 0x2028, 0x2029, 0x202F, 0x205F, 0x3000)] + [_and(I2.binop("Ge", c, 0x2000, "char"), I2.binop("Le", c, 0x200A, "char"))]), "is_whitespace")
+for _p in P:
+    S[_p + "trim"] = (lambda I, s: _trim_matches(True, True)(I, s, _ws(I)))
+    S[_p + "trim_start"] = (lambda I, s: _trim_matches(True, False)(I, s, _ws(I)))
+    S[_p + "trim_end"] = (lambda I, s: _trim_matches(False, True)(I, s, _ws(I)))
+for _nm in ("parse", "split", "lines", "repeat"):
     for _p in P: S[_p + _nm] = (lambda nm: (lambda I, *a: (_ for _ in ()).throw(Unsupported("str::" + nm + " not summarised"))))(_nm)
 
 
